@@ -83,10 +83,11 @@ class SuffixTrie(object):
                 break
 
             child = node.children.get(part)
+            wildcard = node.children.get("*")
 
             # Wildcards
             if child is None:
-                child = node.children.get("*")
+                child = wildcard
 
             # If the current part is not in current node's children, we can stop
             if child is None:
@@ -99,6 +100,12 @@ class SuffixTrie(object):
             if node.leaf:
                 suffix_length = current_length
                 match = node
+
+            # NOTE: a wildcard matches the current part even if this part
+            # also happens to be the start of a longer rule
+            elif wildcard is not None and wildcard.leaf:
+                suffix_length = current_length
+                match = wildcard
 
         # Checking the node we finished on is a leaf and is one we allow
         if match is None or suffix_length == 0:
